@@ -91,7 +91,9 @@ Definition counted_ok (s : scan) : Prop :=
   forall nn p, In (nn, p) (sc_counted s) ->
     node_of_pod p = Some nn /\ phase_eqb (p_phase p) PhUnknown = false /\ memN nn elig = true /\ In p universe.
 Definition cleanup_ok (s : scan) : Prop :=
-  forall p, In p (sc_cleanup s) -> phase_eqb (p_phase p) PhUnknown = false /\ In p universe.
+  forall p, In p (sc_cleanup s) ->
+    phase_eqb (p_phase p) PhUnknown = false /\ In p universe /\
+    exists nn, node_of_pod p = Some nn /\ (memN nn elig = true \/ memN nn ignore = false).
 
 Lemma scan_pod_mono : forall s p,
   incl (sc_counted s) (sc_counted (scan_pod rs elig ignore now s p)) /\
@@ -127,14 +129,16 @@ Proof.
   - destruct (if phase_eqb (p_phase p) Failed then _ else _) as [del bo'].
     destruct del; cbn.
     + split; [exact Hc|].
-      intros q Hq. cbn in Hq. apply in_app_or in Hq. destruct Hq as [Hq|[<-|[]]]; [apply Hk; assumption | split; assumption].
+      intros q Hq. cbn in Hq. apply in_app_or in Hq. destruct Hq as [Hq|[<-|[]]]; [apply Hk; assumption |].
+      split; [assumption|]. split; [assumption|]. exists nn. split; [assumption | left; assumption].
     + split; [|exact Hk].
       intros nn' q Hq. cbn in Hq. apply in_app_or in Hq. destruct Hq as [Hq|[Hq|[]]]; [apply Hc; assumption|].
       inversion Hq; subst. repeat split; assumption.
-  - destruct (memN nn ignore); [split; assumption|].
+  - destruct (memN nn ignore) eqn:Ei; [split; assumption|].
     destruct (pod_terminating p); [split; assumption|].
     cbn; split; [assumption|].
-    intros q Hq. apply in_app_or in Hq. destruct Hq as [Hq|[<-|[]]]; [apply Hk; assumption | split; assumption].
+    intros q Hq. apply in_app_or in Hq. destruct Hq as [Hq|[<-|[]]]; [apply Hk; assumption |].
+    split; [assumption|]. split; [assumption|]. exists nn. split; [assumption | right; assumption].
 Qed.
 
 Lemma scan_fold_inv : forall pods s, incl pods universe -> counted_ok s -> cleanup_ok s ->
@@ -178,7 +182,7 @@ Let fo := filter_and_map rs nodes pods ignore now bo.
 Let elig := eligible_nodes rs nodes ignore.
 Let s := fold_left (scan_pod rs elig ignore now) pods (MkScan [] [] [] bo).
 
-Lemma scan_final_ok : counted_ok elig pods s /\ cleanup_ok pods s.
+Lemma scan_final_ok : counted_ok elig pods s /\ cleanup_ok elig ignore pods s.
 Proof. apply scan_fold_inv; [apply incl_refl | |]; intros x; intros; contradiction. Qed.
 
 Lemma eligible_spec : forall nn, In nn elig <->
@@ -273,10 +277,27 @@ Theorem cleanup_never_unknown : forall p, In p (fo_cleanup fo) ->
 Proof.
   intros p H. destruct scan_final_ok as [Hc Hk].
   unfold fo, filter_and_map in H. cbn [fo_cleanup] in H. fold elig s in H.
-  apply in_app_or in H. destruct H as [H|H]; [apply Hk; assumption|].
+  apply in_app_or in H. destruct H as [H|H]; [destruct (Hk _ H) as [A [B _]]; split; assumption|].
   apply in_flat_map in H. destruct H as [nn [_ H]]. unfold duplicates_of in H.
   destruct (kept_pod (pods_on nn (sc_counted s))) as [k|]; [|contradiction].
   apply remove_first_incl in H. apply pods_on_spec in H. destruct (Hc _ _ H) as [_ [Hu [_ Hin]]]. split; assumption.
+Qed.
+
+(** nothing the filter hands to the clean-up sits on an ignored node (canary nodes for the active role) *)
+Theorem cleanup_avoids_ignored : forall p, In p (fo_cleanup fo) ->
+  exists nn, node_of_pod p = Some nn /\ ~ In nn ignore.
+Proof.
+  intros p H. destruct scan_final_ok as [Hc Hk].
+  assert (Helig : forall nn, memN nn elig = true -> ~ In nn ignore).
+  { intros nn Hm. apply memN_In in Hm. apply eligible_spec in Hm. destruct Hm as [n [_ [_ [Hi _]]]].
+    apply memN_false; assumption. }
+  unfold fo, filter_and_map in H. cbn [fo_cleanup] in H. fold elig s in H.
+  apply in_app_or in H. destruct H as [H|H].
+  - destruct (Hk _ H) as [_ [_ [nn [Hn [He|Hi]]]]]; exists nn; split; auto. apply memN_false; assumption.
+  - apply in_flat_map in H. destruct H as [nn [_ H]]. unfold duplicates_of in H.
+    destruct (kept_pod (pods_on nn (sc_counted s))) as [k|]; [|contradiction].
+    apply remove_first_incl in H. apply pods_on_spec in H. destruct (Hc _ _ H) as [Hn [_ [He _]]].
+    exists nn. split; auto.
 Qed.
 
 Theorem kept_never_unknown : forall nn k, In (nn, Some k) (fo_by_node fo) ->
